@@ -535,7 +535,7 @@ def main(chk):
         chk.inconc('no stepcode/AggregationDataTypes.py under %s' % build.REPO)
         return chk.finish(rule='n/a')
     depth = 4 if chk.tier == 'quick' else 6
-    nseq = 2000 if chk.tier == 'quick' else 20000
+    nseq = 2000 if chk.tier == 'quick' else 200000
     div = Divergences()
     ncfg = part_a(chk, depth, div)
     keys_a = set(div.by_key)
